@@ -32,7 +32,11 @@ type smokePod struct {
 	done   bool // completes in the second phase
 }
 
-func concurrentSmoke(scheme *k8sruntime.Scheme, r *u.Rng) []PodObs {
+// concurrentSmoke returns the final store and whether every call that must
+// succeed did.
+func concurrentSmoke(scheme *k8sruntime.Scheme, r *u.Rng) (store []PodObs, clean bool) {
+	var failed sync.Mutex
+	clean = true
 	pods := []smokePod{
 		{"c1", 0, []string{"g1"}, false}, {"c2", 0, []string{"g2"}, true}, {"c3", 0, []string{"g1"}, true},
 		{"c4", 0, []string{"g2"}, true}, {"c5", 1, []string{"g2", "g3"}, true}, {"c6", 1, []string{"g1", "g3"}, false},
@@ -63,7 +67,17 @@ func concurrentSmoke(scheme *k8sruntime.Scheme, r *u.Rng) []PodObs {
 	var wg sync.WaitGroup
 	spawn := func(f func()) {
 		wg.Add(1)
-		go func() { defer wg.Done(); f() }()
+		go func() {
+			defer wg.Done()
+			defer func() {
+				if x := recover(); x != nil {
+					failed.Lock()
+					clean = false
+					failed.Unlock()
+				}
+			}()
+			f()
+		}()
 	}
 	// phase A: every consumer is reserved into its groups while syncs run
 	for _, p := range pods {
@@ -122,10 +136,10 @@ func concurrentSmoke(scheme *k8sruntime.Scheme, r *u.Rng) []PodObs {
 	spawn(func() { _ = svc.Sync(ctx) })
 	wg.Wait()
 	if err := svc.Sync(ctx); err != nil {
-		panic(err)
+		clean = false
 	}
 	srv.jitter = nil
-	return srv.snapshot(mf)
+	return srv.snapshot(mf), clean
 }
 
 // raceSmokeOnly is what the -race build of the driver runs.
@@ -136,7 +150,10 @@ func raceSmokeOnly(seed uint64, n int) error {
 		n = 30
 	}
 	for i := 0; i < n; i++ {
-		store := concurrentSmoke(scheme, rng.Fork(uint64(i)))
+		store, clean := concurrentSmoke(scheme, rng.Fork(uint64(i)))
+		if !clean {
+			return fmt.Errorf("run %d: a reserve / sync call failed", i)
+		}
 		res := map[string]int{}
 		for _, p := range store {
 			if p.Res {
